@@ -791,6 +791,18 @@ impl Prover {
             return Err(err_msg!("Issuer is sending incorrect data"));
         }
 
+        // u_i must be the G2 counterpart of g_i, e(g_i, u) == e(g, u_i): every later
+        // non-revocation proof is verified against this relation
+        let uu_calc = Pair::pair2(
+            &r_cred.g_i,
+            &cred_rev_pub_key.u,
+            &cred_rev_pub_key.g.neg()?,
+            &r_cred.witness_signature.u_i,
+        )?;
+        if !uu_calc.is_unity()? {
+            return Err(err_msg!("Issuer is sending incorrect data"));
+        }
+
         let m2 = GroupOrderElement::from_bytes(&r_cnxt_m2.to_bytes()?)?;
 
         let h_calc = Pair::pair2(
